@@ -6,6 +6,12 @@ REAL = ['bitcoinlib.services.services.Service', 'bitcoinlib.services.services.Ca
 STUB_COMMON = ['blockchain (simkit.simchain.SimChain + ref.refnode verdicts)', 'clock (module-attribute patch of time/datetime in bitcoinlib modules)',
                'entropy (os.urandom / random._urandom replaced, random and numpy.random seeded per run)']
 
+WALLET_REAL = ['bitcoinlib.wallets (Wallet, WalletKey, WalletTransaction)', 'bitcoinlib.transactions', 'bitcoinlib.keys',
+               'bitcoinlib.scripts', 'bitcoinlib.services.services (Service, Cache)', 'bitcoinlib.db / db_cache (SQLAlchemy models)',
+               'SQLAlchemy', 'SQLite (files in /dev/shm)']
+WALLET_STUB = ['provider client classes (simkit.providers.SimClient*, subclasses of the real BaseClient)'] + STUB_COMMON + [
+    'storage faults at the Session.commit seam (commit failure, crash + dirty restart); no torn pages (no SQLite VFS available)']
+
 SPECS = {
     'C20': {
         'property': 'C20',
@@ -36,6 +42,37 @@ SPECS = {
             'an answer is any return value other than False; exceptions and False are failures (as Service._provider_execute defines them)',
             'the exhaustive claim is limited to the slices listed under coverage.exhaustive_slices; everything else is seeded sampling',
             'reference code under /verif/ref is trusted after passing its published-vector and mainnet-block self-test',
+        ],
+    },
+    'C08': {
+        'property': 'C08',
+        'level': 'exploration',
+        'arms': [{
+            'name': 'ledger',
+            'module': 'scenarios.c08_ledger',
+            'fault_kinds': ['prov_raise', 'prov_false', 'prov_stale', 'bcast_lost_reply', 'db_commit_fail', 'crash',
+                            'multi_handle', 'drop_handle', 'gc_collect'],
+            'tiers': {
+                'quick': {'runs': 400, 'budget_s': 110, 'run_timeout_s': 90, 'shrink_budget_s': 70,
+                          'params': {'focus': 'C08'}},
+                'thorough': {'runs': 12000, 'budget_s': 1500, 'run_timeout_s': 180, 'shrink_budget_s': 240,
+                             'params': {'focus': 'C08'}},
+            },
+        }],
+        'rule': ('one run = one seeded history of 10-36 wallet operations (keys, fund, utxos_update / transactions_update / scan / '
+                 'utxo_add, send / send_to / sweep with drawn amounts, fees, change counts and broadcast flag, later send of an '
+                 'unsent transaction, import as raw/dict/object, delete, remove_unconfirmed, bumpfee, reopen / second handle / '
+                 'drop / gc, mine, clock) on 1-2 wallets (HD, single-key, m-of-n multisig; segwit / p2sh-segwit / legacy; one or two '
+                 'database files) with provider, commit-failure and crash faults; ledger invariants checked on the live handle after '
+                 'most operations and on a freshly opened handle periodically and at the end. Non-trivial: >= 5 operations and >= 1 '
+                 'successful library call; distinct = distinct event-log digests.'),
+        'state_measure': 'distinct (wallet kind, witness type, #utxos bucket, #handles, #acknowledged-spent bucket, last operation kind)',
+        'components': {'real': WALLET_REAL, 'stub': WALLET_STUB},
+        'assumptions': [
+            'crash = process death between SQLite commits (SQLite atomic commit is trusted); an interrupted operation is unacknowledged',
+            'a send is acknowledged when send()/send_to()/sweep() returns with pushed == True; a broadcast whose reply was lost is not',
+            'operation-granularity interleaving of handles only (the library documents no thread safety)',
+            'reference code under /verif/ref is trusted after its self-test',
         ],
     },
 }
